@@ -188,27 +188,32 @@ def run(tier, replay=None):
 
     # ---------------------------------------------------------------- stage 1 + tour graph: TLC in parallel
     t0 = time.time()
-    shapes = [("x86like", dict(K=3, A=1, B=6, Lens="{7}")),
-              ("thumblike", dict(K=4, A=2, B=6, Lens="{8}")),
-              ("fixedlike", dict(K=2, A=2, B=6, Lens="{7}", ReadSizes="{0,1,2,6,99}"))]
+    hc = dlib.head_choices
+    shapes = [("x86like", dict(K=3, A=1, B=6, Lens="{7}", HeadChoices=hc(range(7), 3, 2 if quick else 7))),
+              ("thumblike", dict(K=4, A=2, B=6, Lens="{8}", HeadChoices=hc(range(0, 8, 2), 4, 4))),
+              ("fixedlike", dict(K=2, A=2, B=6, Lens="{7}", HeadChoices=hc(range(0, 7, 2), 2, 1)))]
     if not quick:
-        shapes.append(("x86like-2buf", dict(K=3, A=1, B=5, Lens="{11}", ReadSizes="{0,1,4,5,6,99}", SrcChunks="{1,99}")))
+        shapes.append(("x86like-2buf", dict(K=3, A=1, B=5, Lens="{11}", ReadSizes="{0,1,4,5,6,99}", SrcChunks="{1,99}",
+                                            HeadChoices=hc(range(11), 3, 2))))
     rinv = ["TypeOK", "BufBound", "ScanPrefix", "ReaderInverse"]
+    witnesses = ["WitnessStraddle", "WitnessEofTail", "WitnessCompact"]
     jobs = []
     for name, kw in shapes:
-        jobs.append(("reader " + name, dlib.fs_consts("reader", **kw), rinv, name == "x86like"))
-    for wname in ("WitnessStraddle", "WitnessEofTail", "WitnessCompact"):
-        jobs.append(("witness " + wname, dlib.fs_consts("reader", Lens="{7}", ReadSizes="{1,99}"), [wname], False))
-    jobs.append(("delta reader", dlib.fs_consts("delta", Role='"r"', Lens="{6}", ReadSizes="{1,2,3,99}"), ["DeltaInverse"], False))
-    jobs.append(("delta writer repaired", dlib.fs_consts("delta", Role='"w"', Lens="{6}", WriteAll="TRUE"), ["DeltaHistory"], False))
-    res = dlib.parallel([(lambda j=j: dlib.fs_model(j[1], j[2], dump=j[3], workers=3)) for j in jobs], workers=5)
+        jobs.append(("reader " + name, dlib.fs_consts("reader", **kw), rinv, name == "x86like", False))
+    jobs.append(("witnesses", dlib.fs_consts("reader", Lens="{7}", ReadSizes="{1,99}", HeadChoices=hc(range(7), 3, 1)), witnesses, False, True))
+    jobs.append(("delta reader", dlib.fs_consts("delta", Role='"r"', Lens="{6}", ReadSizes="{1,2,3,99}"), ["DeltaInverse"], False, False))
+    jobs.append(("delta writer repaired", dlib.fs_consts("delta", Role='"w"', Lens="{6}", WriteAll="TRUE"), ["DeltaHistory"], False, False))
+    res = dlib.parallel([(lambda j=j: dlib.fs_model(j[1], j[2], dump=j[3], workers=2, continue_=j[4])) for j in jobs], workers=6)
     scripts = []
-    for (name, consts, invs, dump), (r, dot) in zip(jobs, res):
+    for (name, consts, invs, dump, cont), (r, dot) in zip(jobs, res):
         ctx.note_tlc(name, r)
         log(f"[tlc] {name}: {r}")
-        if name.startswith("witness"):
-            if r.ok:
-                raise ToolError(f"vacuous model: {name} was never violated (the scenario it guards is unreachable)")
+        if name == "witnesses":
+            import re as _re
+            hit = set(_re.findall(r"Invariant (\w+) is violated", r.out))
+            miss = [w for w in witnesses if w not in hit]
+            if miss:
+                raise ToolError(f"vacuous model: witness invariants never violated (scenario unreachable): {miss}")
             continue
         if not r.ok:
             raise ToolError(f"TLC reports {r.violated} for the reader / delta design ({name}): the design spec must hold\n" +
